@@ -253,6 +253,7 @@ Lemma symbol_known_end z s :
   zleft z = Some 0 ->
   ctx f rest s (zrc z) (zps z) [] -> f = anorm s ->
   let z' := symbol pr dict_size allow_eopm z in
+  z' = with_status (set_reps z (rc_normalize (zrc z)) (zps z) (zstate z) (rep0 z) (rep1 z) (rep2 z) (rep3 z)) Finished /\
   zstatus z' = Finished /\ zout z' = zout z /\ zoutn z' = zoutn z /\ zhist z' = zhist z /\
   rin (zrc z') = rest /\ rused (zrc z') = 5 + aJ f.
 Proof.
